@@ -1,4 +1,4 @@
-CONSTANTS KFSkip = {"KF1", "KF2", "KF3"}  Impl = "asfound"
+CONSTANTS KFSkip = {"KF1", "KF2", "KF3"}  Impl = "asfound"  Big = FALSE
 SPECIFICATION Spec
 INVARIANT TypeOK
 INVARIANT AdmittedWellFormed
